@@ -219,11 +219,12 @@ theorem existing_key_never_moves (ops : CellOps C V E) (pre post : List (RowOp C
 `extract/rowfacts.go` runs every function of `row.go` through the symbolic executor and classifies
 the result into the shapes of `Model.RowFactsSyntax` (`Gen.RowFacts`, regenerated on every run). -/
 
-/-- Nothing in the regenerated facts is unknown, they are the facts the model assumes, and nowhere
+/-- Nothing in the regenerated facts is unknown, they are the facts the model assumes (up to the
+    accepted alternative spellings, `RowFacts.normalised`), and nowhere
     in the package is the key list shortened or reordered, or a map entry deleted: the list is
     only read (`Front`, `Len`) or extended (`PushBack`). -/
 theorem row_model_is_the_source :
-    Gen.rowFacts.known = true ∧ Gen.rowFacts = RowFactsSpec.expected ∧
+    Gen.rowFacts.known = true ∧ Gen.rowFacts.normalised = RowFactsSpec.expected ∧
     (∀ m ∈ Gen.rowFacts.listMethods, m ∈ ["Front", "Len", "PushBack"]) ∧
     Gen.rowFacts.mapDeletes = 0 :=
   ⟨RowTie.row_facts_known, RowTie.row_facts_as_modelled, RowTie.list_only_grows.1,
